@@ -52,6 +52,7 @@ class PathState:
         n.fresh = self.fresh
         n.calls = list(self.calls)
         n.bools = dict(getattr(self, 'bools', {}))
+        n.tree_writes = list(getattr(self, 'tree_writes', []))
         return n
 
 
@@ -360,6 +361,11 @@ class LinkSym:
                 return self.read(st, base, f[2:])
             if f == 'segment' or f == 'seg':
                 return SEG
+        if key[0] == 'f' and key[2] in ('m_child', 'm_sibling', 'm_parent'):
+            key = ('f', self.norm(st, key[1]), key[2])
+            for k2, v2 in st.env.items():
+                if k2[0] == 'f' and k2[2] == key[2] and k2 != key and self.same(st, k2[1], key[1]):
+                    return v2
         if key in st.env:
             return st.env[key]
         if key[0] == 'v':
@@ -377,6 +383,9 @@ class LinkSym:
             if f in ('m_next', 'm_prev'):
                 self.write(st, base, f[2:], v, loc)
                 return
+            if f in ('m_child', 'm_sibling', 'm_parent'):
+                st.tree_writes = getattr(st, 'tree_writes', []) + [(self.norm(st, base), f, self.norm(st, v), loc)]
+                key = ('f', self.norm(st, base), f)
         st.env[key] = v
 
     def _bool(self, st, x, val):
@@ -579,6 +588,18 @@ class LinkSym:
                 val[i] = self.read(st, SEG, short)
             else:
                 self.write(st, SEG, short, self._term(st, args[0], val), loc)
+                val[i] = None
+            return
+        TREE = {'graphite2::Slot::nextSibling': 'm_sibling', 'graphite2::Slot::firstChild': 'm_child',
+                'graphite2::Slot::attachedTo': 'm_parent', 'graphite2::Slot::attachTo': 'm_parent'}
+        if fq in TREE and obj is not None:
+            key = ('f', self.norm(st, obj), TREE[fq])
+            if not args:
+                val[i] = self._load(st, key)
+            else:
+                v = self._term(st, args[0], val)
+                self._store(st, key, v, loc)
+                st.tree_writes = getattr(st, 'tree_writes', []) + [(key[1], key[2], self.norm(st, v), loc)]
                 val[i] = None
             return
         if fq == 'graphite2::Segment::newSlot':
